@@ -86,6 +86,19 @@ let check inp obs =
       (if r = Panic then "Decrypt panicked" else "Decrypt accepted a non-genuine ciphertext")
   | _ ->
   match f, o with
+  | ["again"; nonce; msg; pw; pw1], [ct; res1; res2; same] ->
+    (* the stored ciphertext is decrypted twice from the same buffer: the property's "decrypting
+       the stored ciphertext with the same password returns the same key" must still hold after
+       an earlier (failed or successful) attempt *)
+    let nonce = bytes_of_hex nonce and msg = bytes_of_hex msg and pw = bytes_of_hex pw and pw1 = bytes_of_hex pw1 in
+    let ctb = bytes_of_hex ct and r1 = res_of_string res1 and r2 = res_of_string res2 in
+    let mct = (match encrypt cipher pw nonce msg with Ok c -> c | _ -> []) in
+    let model = hex_of_bytes mct ^ " " ^ string_of_res (decrypt cipher pw1 mct) ^ " " ^ string_of_res (decrypt cipher pw mct) ^ " 1" in
+    let prop = out_eqb (Ok mct) (Ok ctb) && prop_decrypt cipher pw1 mct r1 && out_eqb r2 (Ok msg)
+               && (pw1 <> pw || out_eqb r1 (Ok msg)) in
+    ignore same;
+    verdict ~prop ~model ~obs ~tags:("again," ^ (if pw1 = pw then "again-same-pw" else "again-other-pw"))
+      "a second decryption of the stored ciphertext (same buffer) does not return the key"
   | ["enc"; nonce; msg; pw], [ct; res] ->
     let nonce = bytes_of_hex nonce and msg = bytes_of_hex msg and pw = bytes_of_hex pw in
     let ctb = bytes_of_hex ct and r = res_of_string res in
